@@ -135,6 +135,13 @@ impl DataLog {
                     .map(|(_, filter_idx)| *filter_idx)
                     .collect();
 
+                #[cfg(rumqtt_verif)]
+                let v = {
+                    let mut v = v;
+                    crate::verif::order_by(&mut v, |idx| *idx);
+                    v
+                };
+
                 if !v.is_empty() {
                     self.publish_filters.insert(topic.to_owned(), v.clone());
                 }
